@@ -825,7 +825,7 @@ class InClass:
                             akey = v.get(sk)
                         else:
                             akey = getattr(v, sk, None)
-                        if not basic_type(akey):
+                        if not basic_type(type(akey)):
                             try:
                                 akey = akey()
                             except Exception:
